@@ -676,7 +676,8 @@ pub fn small_tree(nonce: u64) -> TreeSpec {
         kind: EntryKind::File(Content::Gen { marker: format!("{}\n", marker(nonce, k)), len, seed: nonce.wrapping_add(k as u64), binary: false }),
     };
     let lit = |name: &str, b: &str| Entry { path: format!("root/{}", name), kind: EntryKind::File(Content::Literal(b.into())) };
-    TreeSpec { root, mtime_mode: 0, entries: vec![f("probe.txt", 0, 64), f("file.txt", 1, 300), f("page.html", 2, 500), f("d/index.html", 3, 200), f("big.bin", 4, 20000), lit("empty.txt", ""), lit("one.txt", "1")] }
+    // (a sixth of the nonces give the tree odd modification times: before 1970, at the epoch, after 2038)
+    TreeSpec { root, mtime_mode: if nonce % 6 == 5 { (1 + nonce % 5) as u8 } else { 0 }, entries: vec![f("probe.txt", 0, 64), f("file.txt", 1, 300), f("page.html", 2, 500), f("d/index.html", 3, 200), f("big.bin", 4, 20000), lit("empty.txt", ""), lit("one.txt", "1")] }
 }
 
 pub fn probe_request() -> Vec<u8> {
